@@ -835,7 +835,12 @@ impl Machine {
         }
         let _ = write!(self.out, "],\"v\":{}}}", retv.unwrap_or(-9));
         self.mem_events();
+        // the operation has returned; what follows only reads the live handles through the safe
+        // API (len, capacity, contents, is_unique).  The markers let the driver tell a crash in
+        // here from a crash inside the operation.
+        eprintln!("#obs");
         self.observe();
+        eprintln!("#obsdone");
         self.out.push_str("}\n");
         true
     }
